@@ -203,6 +203,7 @@ var vfUnixCalls int
 
 func vfNativeSetup() {
 	vfUnixCalls = 0
+	vfC12NoVariants = false // harness-set package flags start fresh for every replay, as under gse
 	DefaultSnmp.Reset() // the counters are process-wide; under gse every path starts from fresh globals
 	SetEntropy(vfRandReader{})
 }
